@@ -243,7 +243,7 @@ def exit_scenario(k, plan, exe, root):
     s = [0, 1, 2, 42, 125, 255, 7, 100][k % 8]
     g = wasih.Guest(plan, 4096)
     g.instantiate()
-    abi = ['p1', 'un'][k % 2]
+    abi = ['p1', 'un'][(k // 8) % 2]         # independent of the status rotation: both ABI entry points see every status
     g.call('proc_exit', [s], abi=abi)
     g.emit('t', 'after')  # must never be reached
     rr, out = wasih.run_script(exe, d, g.script())
